@@ -27,6 +27,10 @@ def cmsg(m):
         return "(MLit %s)" % cb(m[1])
     if m[0] == "seq":
         return "(MSeq %d %d)" % (m[1], m[2])
+    if m[0] == "big":
+        # a long read result that is not one of the generated sequences (only a misbehaving
+        # implementation produces it): 255 never occurs in a generated long payload
+        return "(MRep %d 255)" % m[1]
     return "(MRep %d %d)" % (m[1], m[2])
 
 
@@ -125,7 +129,7 @@ def case_term(c):
 # ---- property predicate on the implementation's own trace --------------------
 
 def mlen(m):
-    return len(m[1]) // 2 if m[0] == "lit" else m[1]
+    return len(m[1]) // 2 if m[0] == "lit" else m[1]   # lit: hex; rep / seq / big: length
 
 
 def pred_hs(c):
@@ -376,6 +380,15 @@ def pred_conn(c, stats=None):
     return f
 
 
+def size_hist_conn(sizes):
+    h = {}
+    for x in sizes:
+        b = ("0" if x == 0 else "1-65533" if x < 65534 else "65534-65535" if x <= 65535
+             else "65536-131070" if x <= 131070 else ">131070")
+        h[b] = h.get(b, 0) + 1
+    return h
+
+
 def run_once(ctx, suffix="", env=None, race=False):
     rc, trace, out = run_harness(ctx.uid(suffix), "brontide", HARNESS, "^TestVerifNoise$",
                                  env=env, timeout=1500, race=race)
@@ -419,10 +432,14 @@ def run(ctx):
         "functional AEAD (Open(Seal)=plaintext, |Seal p| = |p|+16) and dh a (pub b) = dh b (pub a), "
         "parse(ser p)=p for C11_handshake_agrees / C11_stream_roundtrip; ideal AEAD (Open succeeds only on "
         "the Seal output for the same key/nonce/ad; for the handshake also key- and ad-binding), "
-        "injectivity of dh in the public key and of hkdf in the input for C11_handshake_rejects; ideal "
+        "injectivity of dh in the public key and of hkdf in the input, and (act three) Open(Seal p)=p and "
+        "'a 33-byte string parses to at most one point' for C11_handshake_rejects; functional AEAD for "
+        "C11_conn_stream_roundtrip; ideal "
         "AEAD + 'no ciphertext valid under a session (key, nonce) other than the honest one appears in the "
         "stream' (INT-CTXT stated symbolically) for C11_tamper_rejected; C11_nonce_unique needs nothing",
-        "io.Writer contract (a short write returns an error) is built into the writer model",
+        "io.Writer contract (a short write returns an error) is built into the writer model; the net.Conn "
+        "under a brontide.Conn is a list of answers to successive Write calls (writing) and an in-memory "
+        "byte stream ending in EOF (reading); deadlines themselves are runtime",
         "execution uses a tagging AEAD and a toy 61-bit mixing function for HKDF/SHA/ECDH (Noise/Exec.v)"])
     env = {}
     if ctx.replay:
@@ -489,6 +506,28 @@ def run(ctx):
                           {"log": pr["log"][-4000:]}, signature="proof", failing_input=False)
     if ctx.thorough:
         ctx.coqchk(["LV.Noise.Props", "LV.Noise.Exec", "LV.Noise.Examples"])
+        # Conn.Write loop boundaries: every length around 1x/2x/3x 65535 with a fault at every
+        # net.Conn call index (harness VERIF_CONN_SWEEP), predicate + correspondence
+        rc4, rows4, out4 = run_once(ctx, suffix="sweep", env={
+            "VERIF_N_HS": "0", "VERIF_N_TR": "0", "VERIF_N_ROT": "0", "VERIF_N_CONN": "0",
+            "VERIF_CONN_SWEEP": "1"})
+        if rc4 != 0 or not rows4:
+            ctx.violation("harness_failed", "TestVerifNoise sweep", {"log": out4[-3000:]},
+                          signature="harness-sweep", failing_input=False)
+        else:
+            st4 = new_stats()
+            predicate_all(ctx, rows4, st4, env={"VERIF_CONN_SWEEP": "1", "VERIF_SEED": str(ctx.seed)})
+            t4 = ["(%s)%%N" % case_term(c) for c in rows4 if c["kind"] == "conn"]
+            ok4, bad4, logs4 = coq_mismatches(ctx.uid("sweep"), IMPORTS, t4,
+                                              shard=max(1, (len(t4) + 11) // 12), timeout=2400)
+            if not ok4:
+                ctx.violation("correspondence_mismatch", "Noise.Exec (sweep evaluation failed)",
+                              {"logs": logs4}, signature="model-eval-sweep", failing_input=False)
+            for ti, opsidx in bad4[:3]:
+                ctx.violation("correspondence_mismatch", "Noise.Exec.check_case",
+                              {"sweep_case": ti, "op_indices": opsidx[:20], "ops": rows4[ti]["ops"][:12]},
+                              signature="noise mismatch conn sweep", failing_input=True)
+            ctx.cov["conn_sweep_cases"] = len(rows4)
         rc3, rows3, out3 = run_once(ctx, suffix="race", env={"VERIF_CASES": "40"}, race=True)
         if rc3 != 0:
             ctx.violation("harness_failed", "TestVerifNoise -race", {"log": out3[-3000:]},
@@ -517,8 +556,12 @@ def run(ctx):
                 "corruption, replayed and reflected acts), transport cases (WriteMessage + Flush against "
                 "a scripted short-writing io.Writer, ReadMessage from a pipe that is flipped / truncated / "
                 "cut / spliced with earlier or other-direction ciphertext; bulk phases bring each cipher "
-                "to within 4 messages of a rotation boundary), Conn cases (Write/Flush-retry/Read over a "
-                "fragmenting, timing-out net.Conn; predicate only).  non-trivial = not an untampered "
+                "to within 4 messages of a rotation boundary), Conn cases (two brontide.Conn over scripted "
+                "net.Conns: Conn.Write of 0..3x65535+2 bytes incl. 65534/65535/65536/2x65535+-1, a partial "
+                "or failing net.Conn Write at a seeded call index (header / body / inside the MAC), a Write "
+                "while a record is pending, WriteMessage + Flush retries, Conn.Read with buffer sizes 0, 1, "
+                "rest-1, rest, rest+1, 65535, 70000+, ReadNextMessage / ReadNextHeader+Body, reads at end of "
+                "stream and on a torn record; model replays every call).  non-trivial = not an untampered "
                 "handshake; distinct by full case",
         "traces_validated_against_impl": len(model_rows),
         "case_kinds": kinds,
@@ -529,6 +572,9 @@ def run(ctx):
         "reads_at_odd_position": stats["odd_position_reads"],
         "bulk_delivered_after_break": stats["bulk_after_break_delivered"],
         "rotations_crossed_in_bulk_phases": stats["rotations"],
+        "conn_op_kinds": stats["conn_ops"], "conn_write_codes": stats["conn_write_codes"],
+        "conn_read_codes": stats["conn_read_codes"],
+        "conn_write_size_hist": size_hist_conn(stats["conn_write_sizes"]),
         "handshake_outcomes": dict(sorted(hs_out.items(), key=lambda kv: -kv[1])[:25]),
         "samples": [tr[0]["ops"][:8] if tr else None, {k: hs[0][k] for k in ("target", "t1", "obs")} if hs else None],
         "predicate_failures": nfail,
@@ -538,5 +584,6 @@ def run(ctx):
         "ChaCha20-Poly1305, HKDF, SHA-256, secp256k1 ECDH are ideal/symbolic (hypotheses listed in trusted_base)",
         "keys of different rotation epochs / directions are distinct (an equality would be an HKDF collision): "
         "hypothesis honest_consistent of C11_tamper_rejected",
-        "deadline/timing behaviour of brontide.Conn and Listener is runtime, exercised only (Conn cases)",
+        "deadline/timing behaviour of brontide.Conn and Listener (goroutines, real sockets) is runtime: a "
+        "deadline appears in the model only as 'the net.Conn took k bytes of this Write and returned a timeout'",
     ]
